@@ -202,7 +202,7 @@ Record flush_ok (ch : chan) (wire : bytes) (sent : Z) (chunks : list bytes) (clo
                  length (outbufs (f_chan f)) = (length (outbufs ch) - k)%nat /\
                  tl (outbufs (f_chan f)) = skipn (S k) (outbufs ch) /\
                  (forall b, hd_error (outbufs (f_chan f)) = Some b ->
-                    exists b0, nth_error (outbufs ch) k = Some b0 /\ q_len (babs b) <= q_len (babs b0))
+                    exists b0, nth_error (outbufs ch) k = Some b0 /\ q_len (babs b) <= q_len (babs b0) /\ is_ob b = is_ob b0)
 }.
 
 Lemma firstn_prefix_eq (n : nat) (chunk q : list N) :
@@ -249,8 +249,8 @@ Proof.
                  length (outbufs ch) = (length (outbufs ch) - k)%nat /\
                  tl (outbufs ch) = skipn (S k) (outbufs ch) /\
                  (forall b, hd_error (outbufs ch) = Some b ->
-                    exists b0, nth_error (outbufs ch) k = Some b0 /\ q_len (babs b) <= q_len (babs b0))).
-      { exists 0%nat. rewrite Eo. cbn. repeat split; try lia. intros b Hb. injection Hb as <-. exists ob. split; [reflexivity | lia]. }
+                    exists b0, nth_error (outbufs ch) k = Some b0 /\ q_len (babs b) <= q_len (babs b0) /\ is_ob b = is_ob b0)).
+      { exists 0%nat. rewrite Eo. cbn. repeat split; try lia. intros b Hb. injection Hb as <-. exists ob. split; [reflexivity | split; [lia | reflexivity]]. }
       assert (Hch : Forall nonempty chunks -> Forall nonempty (chunks ++ [chunk])).
       { intro H. apply Forall_app; split; [exact H | constructor; [exact Hne | constructor]]. }
       destruct ans as [|a ans'].
@@ -291,10 +291,10 @@ Proof.
            ++ eapply is_prefix_trans; [apply is_prefix_app_r | exact S5].
            ++ destruct S9 as (kk & K1 & K2 & K3 & K4). exists kk.
               rewrite Eo. cbn [outbufs ch2 length] in *. repeat split; auto.
-              intros b Hb. destruct (K4 b Hb) as (b0 & N0 & L0).
+              intros b Hb. destruct (K4 b Hb) as (b0 & N0 & L0 & I0).
               destruct kk as [|kk]; cbn [nth_error] in *.
               ** injection N0 as <-. exists ob. split; [reflexivity|]. rewrite Habs2 in L0.
-                 unfold q_len in *. rewrite skipn_length in L0. lia.
+                 split; [unfold q_len in *; rewrite skipn_length in L0; lia | congruence].
               ** exists b0. auto.
     + (* the head is drained *)
       assert (Hd : babs ob = []) by (apply q_len_nil_iff; lia).
@@ -302,7 +302,7 @@ Proof.
       * constructor; cbn [f_stop f_chan f_wire f_sent f_chunks f_closed]; auto; try lia.
         -- unfold cinv. rewrite Eo. auto.
         -- apply is_prefix_refl.
-        -- exists 0%nat. rewrite Eo. cbn. repeat split; try lia. intros b Hb. injection Hb as <-. exists ob. split; [reflexivity | lia].
+        -- exists 0%nat. rewrite Eo. cbn. repeat split; try lia. intros b Hb. injection Hb as <-. exists ob. split; [reflexivity | split; [lia | reflexivity]].
       * set (ch2 := mkchan (b2 :: rest') (total_outbufs_len ch) (current_outbuf_count ch)).
         assert (Hc2 : cabs ch = cabs ch2).
         { unfold cabs. rewrite Eo. cbn [outbufs ch2 map concat]. rewrite Hd. reflexivity. }
